@@ -295,7 +295,12 @@ Definition error_ok (i : ainput) (o : outcome) : bool :=
            else true
        | _ => false
        end) (p_refs p)) (i_parents i)
-  else if oc_status o =? 3 then true
+  else if oc_status o =? 3 then
+    (* any other error needs a reason in the input: a datasource failure for a referenced child, or
+       (a child deleted between two parent versions) inconsistencies not being ignored *)
+    negb (o_ignore_incons (i_opts i)) ||
+    existsb (fun p => existsb (fun r => match hist_of i (r_id r) with HError => true | _ => false end)
+                              (p_refs p)) (i_parents i)
   else false.   (* a panic is never acceptable *)
 
 Definition j2 (i : ainput) (o : outcome) (obs : list tobs) : bool :=
